@@ -1847,3 +1847,40 @@ let com_sums f lab l =
     else acc)
     (combine (zseq Z0 (Z.to_nat (size f.shape))) (all_positions f.shape))
     (Z0, (map (fun _ -> Z0) f.shape))
+
+(** val qf_join : z list -> z -> z -> z list **)
+
+let qf_join cls i j =
+  let ci = nthZ Z0 cls i in
+  let cj = nthZ Z0 cls j in map (fun c -> if Z.eqb c ci then cj else c) cls
+
+(** val label_pairs : arr -> arr -> (z * z) list **)
+
+let label_pairs f bc =
+  flat_map (fun p ->
+    if Z.eqb (aget f p) Z0
+    then []
+    else flat_map (fun e ->
+           match fixpos extendConstant f.shape (padd p (fst e)) with
+           | Some q ->
+             if Z.eqb (aget f q) Z0
+             then []
+             else ((ravel f.shape p), (ravel f.shape q)) :: []
+           | None -> []) (entries true bc)) (all_positions f.shape)
+
+(** val init_classes : arr -> z list **)
+
+let init_classes f =
+  map (fun i -> if Z.eqb (nthZ Z0 f.data i) Z0 then Zneg XH else i)
+    (zseq Z0 (length f.data))
+
+(** val label_classes : arr -> arr -> z list **)
+
+let label_classes f bc =
+  fold_left (fun cls ij -> qf_join cls (fst ij) (snd ij)) (label_pairs f bc)
+    (init_classes f)
+
+(** val label : arr -> arr -> z list * z **)
+
+let label f bc =
+  renumber (Zneg XH) (label_classes f bc)
